@@ -18,6 +18,7 @@ pub fn prop() -> Prop {
         subs: vec![
             Sub::enumerate("grid", grid),
             Sub::tape("random", 10, 200_000, 10_000_000, random),
+            Sub::tape("very_long", 10, 3_000, 150_000, very_long),
         ],
     }
 }
@@ -159,12 +160,47 @@ fn random(d: &mut Dec, cx: &mut Cx) -> Res {
         _ => Point::new(d.i(-r, r), d.i(-r, r)),
     };
     let w = if d.ratio(1, 6) { d.u(25, 40) } else { d.u(1, 24) };
-    let l = Line::new(s, e);
+    let far = gen::far_offset(d);
+    let l = Line::new(s + far, e + far);
     cx.describe(|| format!("{:?} width {}", l, w));
     cx.class(if w > 24 { "wide(>24)" } else if w == 1 { "width1" } else { "width2..24" });
     let thin = check_thin(&l)?;
     let st = check_thick(&l, w, &thin)?;
     cx.nontrivial(st.nontrivial);
     let _ = gen::point;
+    Ok(())
+}
+
+
+/// Lines whose larger delta is 1025..=30000 (far beyond a display, e.g. a plot line to an off-screen
+/// point): magnitudes around 2^12, 2^13, 2^14 and 2^15 - 1, widths 1..=8.
+fn very_long(d: &mut Dec, cx: &mut Cx) -> Res {
+    let s = Point::new(d.i(-200, 200), d.i(-200, 200));
+    let major = match d.u(0, 5) {
+        0 => d.pick(&[4095, 4096, 4097, 8191, 8192, 8193, 16383, 16384, 16385, 30000]),
+        1 => d.i(1025, 5000),
+        _ => d.i(1025, 30_000),
+    };
+    let minor = match d.u(0, 4) {
+        0 => 0,
+        1 => major,
+        2 => d.i(0, 20),
+        _ => d.i(0, major),
+    };
+    let (mut dx, mut dy) = if d.bool() { (major, minor) } else { (minor, major) };
+    if d.bool() {
+        dx = -dx;
+    }
+    if d.bool() {
+        dy = -dy;
+    }
+    let e = s + Point::new(dx, dy);
+    let w = d.u(1, 8);
+    let l = if d.bool() { Line::new(s, e) } else { Line::new(e, s) };
+    cx.describe(|| format!("{:?} width {}", l, w));
+    cx.class(if major >= 16384 { "delta>=16384" } else if major >= 4096 { "delta>=4096" } else { "delta>=1025" });
+    let thin = check_thin(&l)?;
+    let st = check_thick(&l, w, &thin)?;
+    cx.nontrivial(st.nontrivial || w == 1);
     Ok(())
 }
